@@ -225,7 +225,7 @@ def LARGE(arr, n):
     """ 
     The nth largest value in an array.
     """
-    n = utils.parse_integer(n)
+    n = utils.parse_integer(utils.single(n))
     if isinstance(n, error.XLError):
         return n
     values = sorted(utils.inumbers(arr, try_parse=True, text_is_zero=True))
